@@ -277,6 +277,9 @@ func buildCorpus(caseFiles []string, repo string, tier string, rng *rand.Rand) (
 		sort.Strings(fnames)
 		for _, fn := range fnames {
 			for occ, p := range hs.Fields[fn] {
+				if n := len(hs.Fields[fn]); n > 6 && occ >= 2 && occ < n-1 {
+					continue // a field with hundreds of occurrences: the first two and the last
+				}
 				v := p.get(hs.Data)
 				W := uint64(1) << (8 * p.Width)
 				for _, nv := range []uint64{0, 1, 2, 4, 6, v - 1, v + 1, W - 1, W / 2} {
@@ -443,6 +446,13 @@ func loadOSFile(dir, loader string, data []byte, tail int) (pulled int, o obs.Ob
 	o = obs.RunReader(loader, f)
 	off, err := f.Seek(0, io.SeekCurrent)
 	return int(off), o, err
+}
+
+// hugeJunk: inputs on which a loader legitimately consumes tens of MiB before giving up (a PNG
+// signature and one chunk declaring 40 MiB, the bytes supplied by the source's virtual tail)
+func hugeJunk() []item {
+	hdr := append(append([]byte{}, gen.PNGSig...), 0x02, 0x80, 0x00, 0x00, 't', 'E', 'X', 't') // length 0x02800000 = 40 MiB
+	return []item{{Name: "junk:pngsig+40MiB-chunk", Fmt: "junk", Data: hdr, Tail: 40<<20 + 16}}
 }
 
 // iccOutcome runs the ICC profile reader behind an arbitrary buffered reader.
@@ -634,6 +644,20 @@ func loadsCmd(args []string) error {
 					"pulled": o.Pulled, "replay_len": o.ReplayLen, "prefix": o.Prefix, "final": o.FinalErr,
 				})
 			})
+		}
+		for _, it := range hugeJunk() {
+			for _, loader := range []string{"png", "auto"} {
+				for _, fault := range []string{"eof", "ioerr"} {
+					src := obs.NewSource(it.Data, -1, failOf(fault), obs.Full)
+					src.Tail, src.Cut = it.Tail, len(it.Data)+it.Tail
+					o := obs.Run(loader, src, true, false)
+					sink.put(map[string]interface{}{
+						"item": it.Name, "loader": loader, "n": src.Cut, "cut": src.Cut, "fault": fault,
+						"sched": "full", "shape": "plain", "drain_buf": 0, "drain_copy_after": -1, "ok": o.OK, "panic": o.Panic != "", "stream_nil": o.StreamNil,
+						"pulled": o.Pulled, "replay_len": o.ReplayLen, "prefix": o.Prefix, "final": o.FinalErr,
+					})
+				}
+			}
 		}
 		done()
 		stats["c07"] = sink.n
@@ -915,6 +939,20 @@ func loadsCmd(args []string) error {
 			}
 			sink.put(ev)
 		})
+		for _, it := range hugeJunk() {
+			ev := map[string]interface{}{"item": it.Name, "n": len(it.Data) + it.Tail, "cut": len(it.Data) + it.Tail, "sched": "full", "shape": "plain"}
+			for _, loader := range obs.LoaderNames {
+				src := obs.NewSource(it.Data, -1, nil, obs.Full)
+				src.Tail, src.Cut = it.Tail, len(it.Data)+it.Tail
+				o := obs.Run(loader, src, loader == "auto", false)
+				ev[loader] = o.Outcome()
+				if loader == "auto" {
+					ev["auto_replay_len"], ev["auto_prefix"], ev["auto_final"] = o.ReplayLen, o.Prefix, o.FinalErr
+					ev["auto_has_md"] = o.HasMD
+				}
+			}
+			sink.put(ev)
+		}
 		done()
 		stats["c19"] = sink.n
 	}
